@@ -190,9 +190,8 @@ static uint64_t p0_count(int thorough) {
 }
 static void p0_run(uint64_t idx, vh_rng_t * rng) {
     static vh_buf_t msg, got_err, tt;
-    vh_ctx_t * v; int i, u, first_diff_unit = -1; int line_unit[MAXU], nlines = 0;
+    vh_ctx_t * v; int i, u, first_diff_unit = -1; int line_unit[MAXU], nlines = 0, nmsg, mi;
     char key[120];
-    (void) idx;
     gen_table(rng);
     {
         /* the callback column is part of the table too: an entry may have none */
@@ -201,8 +200,16 @@ static void p0_run(uint64_t idx, vh_rng_t * rng) {
     }
     for (i = 0; i < T.n; i++) { T.cmds[i].pattern = T.pat[i]; T.cmds[i].callback = Tnull[i] ? NULL : handler; T.cmds[i].tag = i + 1; }
     T.cmds[T.n].pattern = NULL; T.cmds[T.n].callback = NULL; T.cmds[T.n].tag = 0;
-    gen_message(rng, &msg);
     vh_buf_reset(&tt); table_text(&tt);
+    /* one context serves 1..3 messages; a message ends with its terminator or - without one - with a zero-length input call. The path is
+     * empty at the start of EVERY message, and nothing of an earlier message may decide whether or when a later one is executed */
+    nmsg = (idx % 3 == 2) ? 2 + (int) vh_below(rng, 2) : 1;
+    v = vh_ctx_new(T.cmds, 600, 16, 256);
+    for (mi = 0; mi < nmsg; mi++) {
+    int via_flush = nmsg > 1 && vh_chance(rng, 1, 2);
+    gen_message(rng, &msg);
+    nlines = 0; first_diff_unit = -1;
+    vh_ctx_clear_capture(v);
     vh_case_desc("table {%s} message \"%s\"", vh_buf_cstr(&tt), vh_esc(msg.p, msg.len));
     /* expected event log */
     vh_buf_reset(&expect_log); g_nexp = 0; nlines = 0;
@@ -211,9 +218,10 @@ static void p0_run(uint64_t idx, vh_rng_t * rng) {
         else if (U[u].tag) { line_unit[nlines++] = u; vh_buf_printf(&expect_log, "H %d ", U[u].tag); vh_buf_add_escaped(&expect_log, U[u].effective, strlen(U[u].effective)); vh_buf_addc(&expect_log, '\n'); g_expected_order[g_nexp++] = u; }
         else { line_unit[nlines++] = u; vh_buf_adds(&expect_log, "E -113\n"); }
     }
-    v = vh_ctx_new(T.cmds, 600, 16, 256);
     g_inv = 0; g_iscmd_self_false = g_iscmd_other_true = 0;
-    vh_input(v, msg.p, msg.len);
+    if (via_flush) { size_t n = msg.len; while (n && (msg.p[n - 1] == '\n' || msg.p[n - 1] == '\r')) n--; vh_input(v, msg.p, n); vh_input(v, NULL, 0); vh_count("messages.ended_by_zero_length_input_call", 1); }
+    else vh_input(v, msg.p, msg.len);
+    if (mi > 0) vh_count("messages.on_a_context_that_served_earlier_messages", 1);
     vh_eval(1);
     /* compare event sequences (flush/write events are not produced: handlers emit nothing) */
     if (strcmp(vh_buf_cstr(&v->log), vh_buf_cstr(&expect_log)) != 0) {
@@ -287,6 +295,8 @@ static void p0_run(uint64_t idx, vh_rng_t * rng) {
         if (U[u].tag) { int later = 0; for (i = U[u].tag; i < T.n; i++) if (ref_match(T.pat[i], U[u].effective, strlen(U[u].effective), NULL, 0, 0, NULL)) later = 1; if (later) vh_count("unit.overlap_first_match_matters", 1); }
     }
     vh_distinct(vh_hash(msg.p, msg.len, vh_hash(tt.p, tt.len, 2)));
+    SCPI_ErrorClear(v->ctx);
+    } /* messages of this context */
     if (NU >= 3 && vh_want_sample()) vh_sample("table {%s} message \"%s\" -> %s", vh_buf_cstr(&tt), vh_esc(msg.p, msg.len), vh_esc(expect_log.p, expect_log.len));
     vh_ctx_free(v);
 }
@@ -296,6 +306,6 @@ int main(int argc, char ** argv) {
     vh_decoy_enable(7); vh_require("decoy.messages_run_on_a_second_context"); vh_require("unit.defined.relative.after-defined-compound"); vh_require("unit.defined.relative.after-undefined-compound");
     vh_require("unit.defined.relative.after-common"); vh_require("unit.undefined.relative.after-defined-compound");
     vh_require("unit.defined.absolute.after-defined-compound"); vh_require("unit.overlap_first_match_matters");
-    vh_require("handler.iscmd_checks"); vh_require("unit.first_match_without_handler_shadows_later_handler"); vh_require("tables.from_shipped_patterns");
+    vh_require("handler.iscmd_checks"); vh_require("messages.ended_by_zero_length_input_call"); vh_require("messages.on_a_context_that_served_earlier_messages"); vh_require("unit.first_match_without_handler_shadows_later_handler"); vh_require("tables.from_shipped_patterns");
     return vh_main(argc, argv, "C02", phases, 1);
 }
